@@ -43,15 +43,17 @@ class watchdog:
         self.seconds = seconds
 
     def _fire(self, *a):
-        raise Livelock("no return to the driver within %ss of real time (task spinning without yielding?)" % self.seconds)
+        raise Livelock("no return to the driver within %ss of CPU time (task spinning without yielding?)" % self.seconds)
 
+    # user-mode CPU time of this process (ITIMER_VIRTUAL), not wall-clock time and not kernel time (page faults under memory pressure): a task that spins burns CPU and is interrupted, a
+    # process that is merely starved by a loaded machine (or by swapping) is not mistaken for a livelock
     def __enter__(self):
-        self.old = _signal.signal(_signal.SIGALRM, self._fire)
-        _signal.setitimer(_signal.ITIMER_REAL, self.seconds)
+        self.old = _signal.signal(_signal.SIGVTALRM, self._fire)
+        _signal.setitimer(_signal.ITIMER_VIRTUAL, self.seconds)
 
     def __exit__(self, *a):
-        _signal.setitimer(_signal.ITIMER_REAL, 0)
-        _signal.signal(_signal.SIGALRM, self.old)
+        _signal.setitimer(_signal.ITIMER_VIRTUAL, 0)
+        _signal.signal(_signal.SIGVTALRM, self.old)
         return False
 
 
